@@ -66,7 +66,11 @@ func genC15(seed uint64, idx int, tier string) interface{} {
 			"\u3000\r\u3000", " x ", "\r\nx", "\ufeff", "\ufeff\r\n", "\x00", "\r\x00"}))
 	case pl.CLI != "" && r.Bool(0.25): // more than one pipe buffer (64 KiB) of stdin
 		var big []byte
-		for target := r.Range(70000, 200000); len(big) < target; {
+		target := r.Range(70000, 200000)
+		if r.Bool(0.12) {
+			target = r.Range(1100000, 1500000) // beyond a megabyte
+		}
+		for len(big) < target {
 			big = append(big, GenInput(ir, v, 30)...)
 		}
 		pl.Input = big
